@@ -38,7 +38,7 @@ def lib():
         _lib.pedmec_min.restype = ctypes.c_int64
         _lib.pedmec_eval.restype = ctypes.c_int64
         _lib.levenshtein.restype = ctypes.c_int
-        assert _lib.oracle_version() == 3
+        assert _lib.oracle_version() == 4
     return _lib
 
 
@@ -178,6 +178,78 @@ def py_pedmec_eval(inst, conv, part, tvec):
         if c > 0:
             cost += bin(tvec[c] ^ tvec[c - 1]).count("1") * inst["rc"][c]
     return cost, masks
+
+
+def c_genotype_posterior(inst, mode=1):
+    """inst as for PedMEC, with inst["prior"][individual][column] = [p0, p1, p2] and weights = phred
+    base qualities.  Returns out[column][individual] = [p0, p1, p2]."""
+    n_ind, trios = PEDS[inst["ped"]]
+    reads = inst["reads"]
+    R, C = len(reads), inst["C"]
+    prior = (ctypes.c_double * max(1, n_ind * C * 3))(*[x for i in range(n_ind) for c in range(C) for x in inst["prior"][i][c]])
+    out = (ctypes.c_double * max(1, C * n_ind * 3))()
+    lib().genotype_posterior(
+        n_ind, len(trios), _arr([x for t in trios for x in t]), R, C, _arr([r[0] for r in reads]),
+        _arr([a for r in reads for a in r[1]]), _arr([w for r in reads for w in r[2]]), prior, _arr(list(inst["rc"])), mode, out,
+    )
+    return [[[out[(c * n_ind + i) * 3 + g] for g in range(3)] for i in range(n_ind)] for c in range(C)]
+
+
+def py_genotype_posterior(inst):
+    """Pure-Python twin: explicit sum over all global bipartitions, transmission paths and allele paths."""
+    from fractions import Fraction  # noqa: F401  (floats are used; Fraction kept for debugging)
+
+    n_ind, trios = PEDS[inst["ped"]]
+    T = 4 ** len(trios)
+    reads = inst["reads"]
+    R, C = len(reads), inst["C"]
+    acc = [[[0.0] * 3 for _ in range(n_ind)] for _ in range(C)]
+    # per (c, t): assignment probabilities
+    pa = {}
+    hps = {}
+    for t in range(T):
+        hp, P = _hap_partitions(inst["ped"], t)
+        hps[t] = hp
+        for c in range(C):
+            probs = {}
+            counts = {}
+            for a in itertools.product((0, 1), repeat=P):
+                gv = tuple(a[hp[i][0]] + a[hp[i][1]] for i in range(n_ind))
+                p = 1.0
+                for i in range(n_ind):
+                    p *= inst["prior"][i][c][gv[i]]
+                probs[a] = (p, gv)
+                counts[gv] = counts.get(gv, 0) + 1
+            s = sum(p / counts[gv] for p, gv in probs.values())
+            pa[(c, t)] = {a: (p / counts[gv] / s, gv) for a, (p, gv) in probs.items()}
+    for part in itertools.product((0, 1), repeat=R):
+        for tpath in itertools.product(range(T), repeat=C):
+            tw = 1.0
+            for c in range(1, C):
+                r = 10 ** (-inst["rc"][c] / 10)
+                x = bin(tpath[c] ^ tpath[c - 1]).count("1")
+                tw *= r**x * (1 - r) ** (2 * len(trios) - x)
+            for apath in itertools.product(*[list(pa[(c, tpath[c])].keys()) for c in range(C)]):
+                w = tw
+                for c in range(C):
+                    p, gv = pa[(c, tpath[c])][apath[c]]
+                    w *= p
+                    hp = hps[tpath[c]]
+                    for r_, (ind, alleles, weights) in enumerate(reads):
+                        al = alleles[c]
+                        if al < 0:
+                            continue
+                        eps = 10 ** (-weights[c] / 10)
+                        w *= (1 - eps) if apath[c][hp[ind][part[r_]]] == al else eps
+                for c in range(C):
+                    gv = pa[(c, tpath[c])][apath[c]][1]
+                    for i in range(n_ind):
+                        acc[c][i][gv[i]] += w
+    for c in range(C):
+        for i in range(n_ind):
+            s = sum(acc[c][i])
+            acc[c][i] = [x / s for x in acc[c][i]]
+    return acc
 
 
 def c_levenshtein(s, t):
